@@ -226,6 +226,9 @@ class MEngine:
         mods = may_modify(self, fr, s.body)
         if mods is not None:
             self.__dict__.setdefault("_cut_mods", {})[cut] = set(mods)
+        if os.environ.get("VERIF_DEBUG_MODS") and cut not in self.__dict__.setdefault("_mods_shown", set()):
+            self._mods_shown.add(cut)
+            print(f"   MODS {cut}: {'ALL' if mods is None else sorted(mods)}", flush=True)
         self.check_inv(it, objs, cut)
         self.havoc_mods(it, objs, mods, fr, s, itv)
         self.assume_inv(it, objs, cut)
@@ -384,15 +387,39 @@ def may_modify(eng, fr, stmts, depth=0, seen=None):
                         target_obj = selfobj
                     elif isinstance(f.value, ast.Attribute) and isinstance(f.value.value, ast.Name) and f.value.value.id == "self":
                         target_obj = selfobj.fields.get(f.value.attr) if selfobj is not None else None
+                        if isinstance(target_obj, VOpt):
+                            target_obj = target_obj.inner
+                        if isinstance(target_obj, VOpaque):
+                            # an opaque boundary value (e.g. the websocket): effects by its declared class
+                            tbl = getattr(eng, "ghost_effects", {})
+                            eff = tbl.get(f"{target_obj.name}.{f.attr}", tbl.get(f"{target_obj.name}.*"))
+                            if eff is None:
+                                eff = list(cl.spec.ghost)
+                            for g in eff:
+                                out.add(("ghost", g))
+                            target_obj = None
                         if target_obj is not None and not isinstance(target_obj, VObj):
                             target_obj = None
                     if target_obj is not None:
                         if not visit_call(target_obj, f.attr, depth):
                             return False
                     elif isinstance(f.value, ast.Name) and f.value.id not in ("self",):
-                        # a call on a local value (Deferred, list, str, ...): ghost effects by method name, if declared
-                        for g in getattr(eng, "ghost_effects", {}).get(f"*.{f.attr}", []):
+                        # a call on a local value (Deferred, list, str, ...): ghost effects by method name; a method
+                        # name the engine does not declare is taken to touch all ghost state
+                        eff = getattr(eng, "ghost_effects", {}).get(f"*.{f.attr}")
+                        if eff is None:
+                            eff = list(cl.spec.ghost)
+                            if os.environ.get("VERIF_DEBUG_MODS"):
+                                print(f"   MODS: undeclared local call .{f.attr}() in {nm}", flush=True)
+                        for g in eff:
                             out.add(("ghost", g))
+                if isinstance(n, ast.Call):
+                    # a bound method of this object passed as an argument (callback) may be run by the callee
+                    for a in list(n.args) + [k.value for k in n.keywords]:
+                        if isinstance(a, ast.Attribute) and isinstance(a.value, ast.Name) and a.value.id == "self" \
+                                and selfobj is not None and eng._it.find_method(selfobj.cls, a.attr) is not None:
+                            if not visit_call(selfobj, a.attr, depth):
+                                return False
                 if isinstance(n, ast.Call) and isinstance(n.func, ast.Name) and n.func.id in ("getattr", "setattr"):
                     return False
                 if isinstance(n, ast.Call) and isinstance(n.func, ast.Name):
@@ -416,7 +443,7 @@ def may_modify(eng, fr, stmts, depth=0, seen=None):
         if key in seen:
             return True
         seen.add(key)
-        if depth > 12:
+        if depth > 60:
             return False
         cd = cl.classes[onm]
         m = cl.am.machine_of(cd)
@@ -440,6 +467,7 @@ def may_modify(eng, fr, stmts, depth=0, seen=None):
 
 
 # ====================================================================== multi-round driver
+ROOT = os.path.dirname(os.path.dirname(os.path.abspath(__file__)))
 _ENGINES = {}
 
 
@@ -711,12 +739,62 @@ class ClusterTask:
     def plan(self, tier):
         return []
 
+    def _engine_results(self, eng, tier, jobs, logs):
+        """the engine's result for the current sources.  Several properties select their obligations from the same
+        exploration; it is computed once per (content of the repository sources, of this checker, of the cached
+        invariant, tier, seed) and kept under out/cluster_cache/ - a run on a tree that differs in any byte of
+        those inputs computes it afresh.  VERIF_NO_CLUSTER_CACHE=1 disables the reuse."""
+        import hashlib
+        import pickle
+        from . import source
+        h = hashlib.sha256()
+        roots = [os.path.join(source.REPO, "src", "wormhole"), os.path.join(ROOT, "pyvc"), os.path.join(ROOT, "props"),
+                 os.path.join(ROOT, "replay")]
+        for root in roots:
+            for dp, dn, fn in sorted(os.walk(root)):
+                dn.sort()
+                for f in sorted(fn):
+                    if f.endswith(".py"):
+                        pth = os.path.join(dp, f)
+                        h.update(os.path.relpath(pth, root).encode())
+                        with open(pth, "rb") as fh:
+                            h.update(hashlib.sha256(fh.read()).digest())
+        if os.path.exists(eng.cache_file):
+            with open(eng.cache_file, "rb") as fh:
+                h.update(hashlib.sha256(fh.read()).digest())
+        h.update(f"{tier}|{os.environ.get('VERIF_SEED', '0')}|{self.factory_mod}.{self.factory_name}".encode())
+        key = h.hexdigest()[:32]
+        cdir = os.path.join(ROOT, "out", "cluster_cache")
+        cpath = os.path.join(cdir, key + ".pickle")
+        if not os.environ.get("VERIF_NO_CLUSTER_CACHE") and os.path.exists(cpath):
+            try:
+                with open(cpath, "rb") as fh:
+                    r = pickle.load(fh)
+                return r, f"reused the exploration computed at {r.get('computed_at')} for byte-identical inputs (key {key})"
+            except Exception:
+                pass
+        r = run_engine(self.factory_mod, self.factory_name, tier, jobs=jobs or 16, log=logs.append)
+        r["computed_at"] = time.strftime("%Y-%m-%dT%H:%M:%SZ", time.gmtime())
+        r["log"] = list(logs)
+        if not r.get("error"):
+            try:
+                os.makedirs(cdir, exist_ok=True)
+                for old_ in os.listdir(cdir):          # keep the directory small: one entry per engine/tier is enough
+                    if old_.endswith(".pickle") and time.time() - os.path.getmtime(os.path.join(cdir, old_)) > 6 * 3600:
+                        os.remove(os.path.join(cdir, old_))
+                with open(cpath + ".tmp", "wb") as fh:
+                    pickle.dump(r, fh)
+                os.replace(cpath + ".tmp", cpath)
+            except Exception:
+                pass
+        return r, f"computed in this run (key {key})"
+
     def run_own(self, tier, jobs):
         import importlib
         t0 = time.time()
         logs = []
-        r = run_engine(self.factory_mod, self.factory_name, tier, jobs=jobs or 16, log=logs.append)
         eng = getattr(importlib.import_module(self.factory_mod), self.factory_name)()
+        r, reused = self._engine_results(eng, tier, jobs, logs)
         from .runner import ob
         if r["error"]:
             return {"obligations": [ob(self.name + ".crash", "crash", detail=r["error"])], "info": {}}
@@ -768,6 +846,7 @@ class ClusterTask:
         sample = [clause_text(clause_from_key(k)) for k in r["inv"].get("entry", []) if len(clause_from_key(k)) == 2][:25]
         return {"obligations": out,
                 "info": {"target": f"cluster:{eng.name}", "paths": npaths, "rounds": r["rounds"], "wall": r.get("wall"),
+                         "engine_run": reused,
                          "log": logs[-12:], "entries": [e.name for e in eng.entries],
                          "invariant_clauses": {c: len(ks) for c, ks in r["inv"].items()}, "invariant_sample": sample,
                          "assumptions": []}}
